@@ -100,6 +100,9 @@ class ScrapliFormatter(Formatter_):
             record.port = ""
             _host_port = ""
         else:
+            if not hasattr(record, "port"):
+                # a host without a port must not make formatting fail either
+                record.port = ""
             _host_port = f"{record.host}:{record.port}"
 
         _uid = "" if not hasattr(record, "uid") else f"{record.uid}:"
